@@ -249,7 +249,7 @@ def spec_violation(chk, label, res):
 
 
 THEOREMS = ('ThmPeriod', 'ThmJan1', 'ThmYearLen', 'ThmWeeks', 'Thm71', 'ThmStrings', 'ThmShort', 'ThmYearOrder',
-            'ThmBigYears', 'ThmAnchors', 'ThmOrder', 'ThmScaled', 'ThmExp', 'ThmZones', 'ThmWrap')
+            'ThmBigYears', 'ThmAnchors', 'ThmOrder', 'ThmScaled', 'ThmExp', 'ThmZones', 'ThmWrap', 'ThmSign')
 
 
 class Job(threading.Thread):
@@ -300,6 +300,42 @@ def thm_job(ymax, workers):
 # ---------------------------------------------------------------------------
 # the guarded probe for inputs without a type attribute (C08's F08, not gated here)
 # ---------------------------------------------------------------------------
+def sign_law_part(chk):
+    """T-Sign on the code: whatever reading of the undecided number shapes (".5", "5.", "1e2", "05" ...) the implementation takes, a string
+    and "-" + that string must be both usable or both unusable as min / max / value of a number or range input.  Usability is observed
+    through far-away counterparts: value -999999 is out of range exactly when min is usable, and so on."""
+    import warnings
+    warnings.simplefilter('ignore')
+    sv, bs4 = common.import_repo()
+    shapes = ['5', '0', '05', '5.5', '.5', '5.', '0.50', '.50', '00.5', '1e2', '1E2', '.5e1', '5.e1', '5e', 'e5', '.', '', '5.5.5', '1e+2', '1e-2', '.5E-1', '55', '0.0', '.0']
+
+    def cls(typ, **attrs):
+        soup = bs4.BeautifulSoup('', 'html.parser')
+        t = soup.new_tag('input')
+        t.attrs['type'] = typ
+        for k, v in attrs.items():
+            t.attrs[k] = v
+        soup.append(t)
+        return (bool(sv.select(':in-range', soup)), bool(sv.select(':out-of-range', soup)))
+    n = 0
+    for typ in ('number', 'range'):
+        for s in shapes:
+            for role in ('min', 'max', 'value'):
+                if role == 'min':
+                    a, b = cls(typ, min=s, value='-999999'), cls(typ, min='-' + s, value='-999999')
+                elif role == 'max':
+                    a, b = cls(typ, max=s, value='999999'), cls(typ, max='-' + s, value='999999')
+                else:
+                    a, b = cls(typ, min='-999999', max='999999', value=s), cls(typ, min='-999999', max='999999', value='-' + s)
+                n += 2
+                chk.nontrivial('sign:%s:%s' % (role, s))
+                if a != b:
+                    chk.violation('sign|%s|%s|%s' % (typ, role, s),
+                                  'sign law: <input type=%s> with %s=%r is (in-range, out-of-range) = %r but with %s=%r it is %r: the number shape is usable with one sign only'
+                                  % (typ, role, s, a, role, '-' + s, b), {'cfg': 'sign-law', 'group': 'sign law %s' % role, 'type': typ, 'role': role, 'shape': s})
+    chk.count(n, traces=n // 2)
+
+
 def typeless_probe(chk):
     sv, bs4 = common.import_repo()
     soup = bs4.BeautifulSoup('', 'html.parser')
@@ -599,6 +635,7 @@ def main(tier):
     try:
         ndocs, lines = trace_record(tier)
         typeless_probe(chk)
+        sign_law_part(chk)
         # the TLC runs go side by side (each has a serial start-up phase), read by one thread each
         if tier == 'quick':
             jobs = [mc_job(shared, 'MC_C18_cal', {'YearLo': 1, 'YearHi': 800, 'Full': 'FALSE', 'BatchSize': 100}, 'cal800', 12),
